@@ -168,6 +168,9 @@ def collect(body, include_overflow=False):
             else:
                 out.append(PanicSite(body, it, "panic", short_callee(c)))
             continue
+        if c in ("bitvec::slice::BitSlice::set", "bitvec::slice::BitSlice::replace", "bitvec::slice::BitSlice::swap") or cal in ("bitvec::slice::BitSlice::set", "bitvec::slice::BitSlice::replace"):
+            out.append(PanicSite(body, it, "bitset", stable_desc(body, it.args[0])))
+            continue
         if cal in INDEX_CALLS:
             ity = it.j.get("argtys", ["", ""])[1] if len(it.j.get("argtys", [])) > 1 else ""
             ity = ity.replace("std::ops::", "")
@@ -432,6 +435,55 @@ def _fmt_lin(f):
     return " + ".join(parts)
 
 
+def _bit_capacity(body, recv_op):
+    """number of bits of the fixed BitArray<[u8; N]> a BitSlice receiver is a view of (None if unknown)"""
+    recv = trace(body, recv_op)
+    tys = [body.local_ty(st.place.local) for st in recv.steps if isinstance(st, Stmt) and st.place.is_local]
+    if recv.kind in ("multi", "undef", "param"):
+        tys.append(body.local_ty(recv.root[1]))
+    if recv.kind == "call" and recv.root[1].dest is not None:
+        tys.append(body.local_ty(recv.root[1].dest.local))
+    tys += [a for st in recv.steps if isinstance(st, Term) for a in st.j.get("argtys", [])]
+    if recv.kind == "upvar":
+        from .prov import upvar_origin
+        o = upvar_origin(body, recv.root[1])
+        if o is not None:
+            tys.append(o[2].local_ty(o[1]))
+    for ty in tys:
+        m = _re.search(r"BitArray<\[u8; (\d+)\]", ty or "")
+        if m:
+            return 8 * int(m.group(1))
+    return None
+
+
+def _take_while_bound(body, iter_op):
+    """K if `iter_op` is (an into_iter of) `x.take_while(|i| *i < K)` (K + 1 for `<=`), else None"""
+    src = trace(body, iter_op, extra_transparent=("std::iter::IntoIterator::into_iter",))
+    cands = [src.root[1]] if src.kind == "call" else [d for d in src.root[3] if isinstance(d, Term)] if src.kind == "multi" else []
+    for cnd in cands:
+        tw = cnd
+        if tw.kind == "call" and (tw.callee or "").endswith("IntoIterator::into_iter") and tw.args:
+            t2 = trace(body, tw.args[0], extra_transparent=())
+            tw = t2.root[1] if t2.kind == "call" else tw
+        if tw.kind == "call" and (tw.callee or "").endswith("Iterator::take_while") and len(tw.args) == 2:
+            ct = trace(body, tw.args[1])
+            if ct.kind == "rv" and ct.root[1].rv.kind == "agg" and ct.root[1].rv.j.get("ak") == "closure":
+                cb = body.facts.body(ct.root[1].rv.j["closure"])
+                if cb is None:
+                    continue
+                for st in cb.stmts():
+                    if st.place.is_local and st.place.local == 0 and st.rv.kind in ("bin", "use"):
+                        rv = st.rv if st.rv.kind == "bin" else None
+                        if rv is None and st.rv.ops and st.rv.ops[0].place is not None:
+                            d = cb.unique_def(st.rv.ops[0].place.local)
+                            rv = d.rv if isinstance(d, Stmt) and d.rv.kind == "bin" else None
+                        if rv is not None and rv.op in ("Lt", "Le") and trace(cb, rv.ops[0]).kind == "param":
+                            kv = _const_val(cb, rv.ops[1])
+                            if kv is not None:
+                                return kv if rv.op == "Lt" else kv + 1
+    return None
+
+
 def try_discharge(body, site, bounds):
     """returns a reason string if the site provably cannot panic by one of the automatic patterns, else None"""
     it = site.item
@@ -571,6 +623,42 @@ def try_discharge(body, site, bounds):
                 continue
             return None
         return "; ".join(reasons)
+    if k == "bitset" and len(it.args) >= 2:
+        # BitSlice::set(idx, ..) panics for idx >= len: the receiver is a fixed BitArray<[u8; N]> and idx < K <= 8 * N
+        cap = _bit_capacity(body, it.args[0])
+        if cap is None:
+            return None
+        from .flow import ordering
+        idx = it.args[1]
+        # (i) a dominating test idx < K in this body
+        for term, tgt, lab in controlling_edges(body, it.bb):
+            c, neg = switch_cond(body, term)
+            truth = (lab[1] != 0) if lab[0] == "val" else (0 in lab[1])
+            if neg:
+                truth = not truth
+            o = ordering(c, truth) if c.kind == "bin" else None
+            if o is not None and trace(body, o[0]).key() == trace(body, idx).key():
+                kv = _const_val(body, o[1])
+                if kv is not None and (kv if o[2] else kv + 1) <= cap:
+                    return "index < %d by the dominating test, bit capacity %d" % (kv if o[2] else kv + 1, cap)
+        # (ii) the index is an item of `iter.take_while(|i| *i < K)` consumed by a for loop ...
+        ti = trace(body, idx, extra_transparent=("std::iter::IntoIterator::into_iter",))
+        if ti.kind == "call" and (ti.root[1].callee or "").endswith("Iterator::next") and ti.root[1].args:
+            kb = _take_while_bound(body, ti.root[1].args[0])
+            if kb is not None and kb <= cap:
+                return "index is an item of take_while(|i| *i < %d), bit capacity %d" % (kb, cap)
+        # (iii) ... or by for_each(|idx| ..) in the parent
+        if body.kind == "closure" and ti.kind == "param" and ti.root[1] == 2 and not ti.fields and body.parent:
+            pb = body.facts.body(body.parent)
+            if pb is not None:
+                for t in pb.calls():
+                    if (t.callee or "").endswith("Iterator::for_each") and len(t.args) == 2:
+                        ct = trace(pb, t.args[1])
+                        if ct.kind == "rv" and ct.root[1].rv.kind == "agg" and ct.root[1].rv.j.get("closure") == body.name:
+                            kb = _take_while_bound(pb, t.args[0])
+                            if kb is not None and kb <= cap:
+                                return "index is an item of take_while(|i| *i < %d).for_each(..), bit capacity %d" % (kb, cap)
+        return None
     if k in ("unwrap", "expect"):
         src = trace(body, it.args[0])
         # `slice[a..b].try_into().unwrap()` into `[u8; N]` with b - a == N (possibly through a private decoding helper)
